@@ -399,8 +399,8 @@ func TestFindings(t *testing.T) {
 }
 
 func TestRandom(t *testing.T) {
-	chkA.Rapid(t, harness.Pick(5000, 30000))
-	chkB.Rapid(t, harness.Pick(60, 500))
+	chkA.Rapid(t, harness.Pick(5000, 200000))
+	chkB.Rapid(t, harness.Pick(60, 1500))
 }
 
 func TestSweeps(t *testing.T) {
